@@ -166,10 +166,17 @@ class IProc:
             self.aparams = [a.arg for a in node.args.args[:2]]; self.iparam = node.args.args[2].arg
             self.arrs |= set(self.aparams); self.ints.add(self.iparam)
             self.ret = "(list Z * list Z)"
+        elif kind == "tab":
+            if [ast.unparse(a.annotation) for a in node.args.args] != ["int"] * len(node.args.args) or ast.unparse(node.returns) != "np.ndarray": bad(node, "signature of %s" % node.name)
+            if [ast.unparse(d) for d in node.args.defaults] not in ([], ["0"]): bad(node, "default values of %s" % node.name)
+            self.iparams = [a.arg for a in node.args.args]
+            self.ints |= set(self.iparams)
+            self.ret = "(list Z)"
         else:
             if [ast.unparse(a.annotation) for a in node.args.args] != ["np.ndarray"] or ast.unparse(node.returns) != "np.ndarray": bad(node, "signature of %s" % node.name)
             self.mat = node.args.args[0].arg
             self.ret = "(list num)"
+        self.ft = []
 
     def iexpr(self, e):
         """-> (coq, guards)"""
@@ -187,6 +194,9 @@ class IProc:
             if isinstance(e.op, ast.Mult): return "(%s * %s)" % (x, y), gx + gy
             if isinstance(e.op, ast.LShift): return "(Z.shiftl %s %s)" % (x, y), gx + gy + [("(0 <=? %s)" % y, 'FRaised (EUser "ValueError"%string)')]
             if isinstance(e.op, ast.Pow): return "(%s ^ %s)" % (x, y), gx + gy + [("(0 <=? %s)" % y, "FNonInt")]
+            if isinstance(e.op, (ast.Mod, ast.FloorDiv)):
+                nz = isinstance(e.right, ast.Constant) and type(e.right.value) is int and e.right.value != 0
+                return "(%s %s %s)" % (x, "mod" if isinstance(e.op, ast.Mod) else "/", y), gx + gy + ([] if nz else [("(negb (%s =? 0))" % y, "FRaised EZeroDivision")])
         bad(e, "integer expression %s" % ast.unparse(e))
 
     def is_int(self, e):
@@ -205,7 +215,7 @@ class IProc:
                 hi, g = self.iexpr(e.slice.upper); return "(slice_to %s %s)" % (a, hi), g
             if e.slice.lower is not None and e.slice.upper is not None:
                 lo, g1 = self.iexpr(e.slice.lower); hi, g2 = self.iexpr(e.slice.upper); return "(slice_range %s %s %s)" % (a, lo, hi), g1 + g2
-        if isinstance(e, ast.Call) and ast.unparse(e.func) == "np.zeros" and len(e.args) == 1 and [(k.arg, ast.unparse(k.value)) for k in e.keywords] == [("dtype", "np.int64")]:
+        if isinstance(e, ast.Call) and ast.unparse(e.func) == "np.zeros" and len(e.args) == 1 and [(k.arg, ast.unparse(k.value)) for k in e.keywords] in ([("dtype", "np.int64")], [("dtype", "int")]):
             c, g = self.iexpr(e.args[0])
             return "(repeat 0 (Z.to_nat %s))" % c, g + [("(0 <=? %s)" % c, VE)]
         if isinstance(e, ast.BinOp) and isinstance(e.op, (ast.Add, ast.Mult)):
@@ -222,6 +232,14 @@ class IProc:
                 return "(map (fun p_ => fst p_ %s snd p_) (combine %s %s))" % (op, a, b), g1 + g2 + [("(Nat.eqb (length %s) (length %s))" % (a, b), VE)]
         bad(e, "index-array expression %s" % ast.unparse(e))
 
+    def cond(self, t):
+        if isinstance(t, ast.Compare) and len(t.ops) == 1 and isinstance(t.ops[0], (ast.Eq, ast.NotEq, ast.Lt, ast.LtE, ast.Gt, ast.GtE)):
+            x, g1 = self.iexpr(t.left); y, g2 = self.iexpr(t.comparators[0])
+            op = t.ops[0]
+            c = {ast.Eq: "(%s =? %s)", ast.NotEq: "(negb (%s =? %s))", ast.Lt: "(%s <? %s)", ast.LtE: "(%s <=? %s)", ast.Gt: "(%s >? %s)", ast.GtE: "(%s >=? %s)"}[type(op)] % (x, y)
+            return c, g1 + g2
+        bad(t, "condition %s" % ast.unparse(t))
+
     @staticmethod
     def guard(gs, txt):
         for g, o in reversed(gs):
@@ -229,6 +247,7 @@ class IProc:
         return txt
 
     def fallthrough(self):
+        if self.ft: return self.ft[-1]
         return "(FRet (%s))" % ", ".join("v_" + a for a in self.aparams) if self.kind == "proc" else "(FNone)"
 
     def block(self, stmts):
@@ -240,6 +259,65 @@ class IProc:
             x, g1 = self.iexpr(s.test.left); y, g2 = self.iexpr(s.test.comparators[0])
             if not any(isinstance(n, ast.Return) for n in s.body[-1:]): bad(s, "an if that falls through")
             return self.guard(g1 + g2, "(if (%s =? %s) then %s else %s)" % (x, y, self.block(s.body), self.block(rest)))
+        PROP = "| FNone => FNone | FRaised e_ => FRaised e_ | FNonInt => FNonInt | FOutOfFuel => FOutOfFuel end"
+        if isinstance(s, ast.AugAssign) and isinstance(s.target, ast.Name) and isinstance(s.op, (ast.Add, ast.Sub, ast.Mult, ast.FloorDiv, ast.Mod)):
+            return self.block([ast.copy_location(ast.Assign(targets=[ast.Name(id=s.target.id, ctx=ast.Store())], value=ast.BinOp(left=ast.Name(id=s.target.id, ctx=ast.Load()), op=s.op, right=s.value)), s)] + rest)
+        if isinstance(s, ast.If) and not s.orelse and not any(isinstance(n, (ast.Return, ast.For, ast.While)) for n in ast.walk(s)):
+            # if c: x = e; ...   (integer assignments only, nothing that can raise)
+            c = self.cond(s.test)
+            names = []
+            for b in s.body:
+                b2 = b
+                if isinstance(b, ast.AugAssign) and isinstance(b.target, ast.Name):
+                    b2 = ast.Assign(targets=[ast.Name(id=b.target.id, ctx=ast.Store())], value=ast.BinOp(left=ast.Name(id=b.target.id, ctx=ast.Load()), op=b.op, right=b.value))
+                if not (isinstance(b2, ast.Assign) and len(b2.targets) == 1 and isinstance(b2.targets[0], ast.Name) and b2.targets[0].id in self.ints): bad(b, "statement in an if body")
+                v, g = self.iexpr(b2.value)
+                if g: bad(b, "an if body that can raise")
+                names.append((b2.targets[0].id, v))
+            vs = []
+            for nm, _ in names:
+                if nm not in vs: vs.append(nm)
+            inner = pat_("v_" + nm for nm in vs)
+            for nm, v in reversed(names):
+                inner = "(let v_%s := %s in %s)" % (nm, v, inner)
+            return self.guard(c[1], "(let %s := (if %s then %s else %s) in %s)" % (("'" if len(vs) > 1 else "") + pat_("v_" + nm for nm in vs), c[0], inner, pat_("v_" + nm for nm in vs), self.block(rest)))
+        if isinstance(s, ast.For) and not s.orelse and isinstance(s.target, ast.Name) and isinstance(s.iter, ast.Call) and ast.unparse(s.iter.func) == "range" and len(s.iter.args) == 1 and not s.iter.keywords:
+            e, g = self.iexpr(s.iter.args[0])
+            before_i, before_a = set(self.ints), set(self.arrs)
+            assigned = []
+            for n in ast.walk(ast.Module(body=s.body, type_ignores=[])):
+                tg = None
+                if isinstance(n, (ast.Assign, ast.AugAssign)):
+                    for t in (n.targets if isinstance(n, ast.Assign) else [n.target]):
+                        for t2 in (t.elts if isinstance(t, ast.Tuple) else [t]):
+                            nm = t2.id if isinstance(t2, ast.Name) else (t2.value.id if isinstance(t2, ast.Subscript) and isinstance(t2.value, ast.Name) else None)
+                            if nm is None: bad(n, "assignment target in a loop")
+                            if nm not in assigned: assigned.append(nm)
+                if isinstance(n, ast.For) and isinstance(n.target, ast.Name) and n.target.id not in assigned: assigned.append(n.target.id)
+            state = [nm for nm in assigned if nm in before_i or nm in before_a]
+            if not state: bad(s, "a loop without state")
+            if s.target.id in before_i or s.target.id in before_a: bad(s, "loop variable shadows a local")
+            ty = " * ".join("Z" if nm in before_i else "list Z" for nm in state)
+            sp = ("'" if len(state) > 1 else "") + pat_("v_" + nm for nm in state)
+            st = pat_("v_" + nm for nm in state)
+            self.ints.add(s.target.id)
+            self.ft.append("(FRet %s)" % st)
+            body = self.block(s.body)
+            self.ft.pop()
+            local_i, local_a = self.ints - before_i, self.arrs - before_a
+            self.ints, self.arrs = before_i, before_a
+            for n in ast.walk(ast.Module(body=rest, type_ignores=[])):
+                if isinstance(n, ast.Name) and (n.id in local_i or n.id in local_a): bad(s, "%s is assigned only inside the loop and read after it" % n.id)
+            return self.guard(g, "(match fold_left (fun (o_ : fres (%s)) (it_ : Z) => match o_ with FRet st_ => let %s := st_ in let v_%s := it_ in %s %s) (pyrange %s) (FRet %s) with FRet st_ => let %s := st_ in %s %s)" % (
+                ty, sp, s.target.id, body, PROP, e, st, sp, self.block(rest), PROP))
+        if isinstance(s, ast.Assign) and len(s.targets) == 1 and isinstance(s.targets[0], ast.Subscript) and not isinstance(s.targets[0].slice, ast.Slice) \
+           and isinstance(s.targets[0].value, ast.Name) and s.targets[0].value.id in self.arrs:
+            a = s.targets[0].value.id
+            ix, g1 = self.iexpr(s.targets[0].slice); v, g2 = self.iexpr(s.value)
+            return self.guard(g2 + g1, "(let rhs_ := %s in if idx_ok v_%s %s then (let v_%s := list_set v_%s %s rhs_ in %s) else FRaised EIndex)" % (v, a, ix, a, a, ix, self.block(rest)))
+        if isinstance(s, ast.Return) and self.kind == "tab":
+            if not (isinstance(s.value, ast.Name) and s.value.id in self.arrs): bad(s, "return value")
+            return "(FRet v_%s)" % s.value.id
         if isinstance(s, ast.Return):
             if s.value is None:
                 if self.kind != "proc": bad(s, "bare return")
@@ -300,17 +378,24 @@ class IProc:
         body = self.block(self.node.body)
         if self.kind == "proc":
             ps = " ".join("(v_%s : list Z)" % a for a in self.aparams) + " (v_%s : Z)" % self.iparam
+        elif self.kind == "tab":
+            ps = " ".join("(v_%s : Z)" % a for a in self.iparams)
+            return "Definition %s %s : fres %s :=\n  %s." % (self.coq, ps, self.ret, body)
         else:
             ps = "(v_%s_shape0 : Z) (v_%s_flat : list num)" % (self.mat, self.mat)
         rec = (self.coq + " fuel") in body
         return "%s %s (fuel : nat) %s%s : fres %s :=\n  match fuel with O => FOutOfFuel | S fuel =>\n  %s\n  end." % ("Fixpoint" if rec else "Definition", self.coq, ps, " {struct fuel}" if rec else "", self.ret, body)
 
 PROCS = {}
+def pat_(names):
+    names = list(names)
+    return names[0] if len(names) == 1 else "(" + ", ".join(names) + ")"
 
 
 class NumpyTranslator:
     WANT = ["matrix_decomposition_diagonal", "matrix_decomposition"]
     def __init__(self, repo):
+        self.repo = repo
         path = os.path.join(repo, "src", "paulie", "application", "matrix_decomposition.py")
         self.tree = ast.parse(open(path, newline=None, encoding="utf-8-sig").read())
         self.fns = {}
@@ -345,6 +430,12 @@ Definition popcountZ (k : Z) : Z := match k with Zpos p => (fix pc (q : positive
             node = self.defs.get(name)
             if node is None: raise Unsupported("%s not found in the source" % name)
             out.append(IProc(node, "py_N_" + name, kind).emit()); out.append("")
+        wpath = os.path.join(self.repo, "src", "paulie", "application", "average_pauli_weight.py")
+        wtree = ast.parse(open(wpath, newline=None, encoding="utf-8-sig").read())
+        wdefs = {n.name: n for n in wtree.body if isinstance(n, ast.FunctionDef)}
+        if "get_pauli_weights" not in wdefs: raise Unsupported("get_pauli_weights not found in average_pauli_weight.py")
+        out.append("(* get_pauli_weights (average_pauli_weight.py), lines %d-%d *)" % (wdefs["get_pauli_weights"].lineno, wdefs["get_pauli_weights"].end_lineno))
+        out.append(IProc(wdefs["get_pauli_weights"], "py_N_get_pauli_weights", "tab").emit()); out.append("")
         for name in self.WANT:
             node = self.defs.get(name)
             if node is None: raise Unsupported("%s not found in the source" % name)
